@@ -325,12 +325,12 @@ c.ens("vertical-uses-W2-and-DW2-default-880-minus-1000", lambda self, spec, widt
 
 
 @bounded("type0-documents-vs-oracle", props=["C07"],
-         bound="quick: 120 generated documents with an Identity-H font: ToUnicode (bfchar, bfrange increment form crossing byte carries, array form, multi-character and astral targets), W in both syntaxes with overrides, DW present/0/absent; every glyph's text and advance compared; thorough: 2500")
+         bound="quick: 120 generated documents with an Identity-H font: ToUnicode (bfchar, bfrange increment form crossing byte carries, array form, multi-character and astral targets), W in both syntaxes with overrides, DW present/0/absent; every glyph's text and advance compared; thorough: 20000")
 def _(tier, seed):
     import io, random
     from specs.pdfgen import build, Name, Ref, Stream
     rng = random.Random(seed + 7)
-    n = 120 if tier == "quick" else 2500
+    n = 120 if tier == "quick" else 20000
     interp = real_module("pdfminer.pdfinterp"); conv = real_module("pdfminer.converter"); layout = real_module("pdfminer.layout")
     PDFParser = real_module("pdfminer.pdfparser").PDFParser; PDFDocument = real_module("pdfminer.pdfdocument").PDFDocument
     PDFPage = real_module("pdfminer.pdfpage").PDFPage
